@@ -135,9 +135,15 @@ def availability(repo, rep):
         raise AnalysisError("match_consecutive_partitions: matching loop not found")
     from ..astutil import returned_names
     mr = returned_names(fi.node)
-    if len(mr) != 1 or not isinstance(mr[0], ast.Name):
+    if not mr or not all(isinstance(x, ast.Name) for x in mr) or len({x.id for x in mr}) != 1:
         raise AnalysisError("match_consecutive_partitions: returned match table not found")
     mtable = mr[0].id
+    # every exit happens after the loop that marks each non-empty current partition as matched / unmatched
+    for r_ in ast.walk(fi.node):
+        if isinstance(r_, ast.Return) and r_.lineno < loops[-1].lineno:
+            rep.fail("R-C19-3", fi.file, r_.lineno, fi.qualname, "return before the matching loop",
+                     "an exit before the loop over the current partitions leaves newly appearing systems with the 'empty' marker: they never "
+                     "receive an identifier and the reported count omits them", anchor="match:early-return")
     loop = loops[-1]
     cur = loop.target.elts[0].id if isinstance(loop.target, ast.Tuple) else None
     # candidate filter reads availability
@@ -231,6 +237,21 @@ def thresholds(repo, rep):
             rep.fail("R-C19-4", fi.file, fi.node.lineno, fi.qualname, "admissibility mask", "the three threshold tests must be conjoined")
         else:
             rep.ok("R-C19-4", f"{fi.file} match_consecutive_partitions", "ddpm < ddpm_max and dfp < dfp_max and dfp > dfp_min", "conjunction of all three")
+    # the threshold vectors are indexed by the PREVIOUS partition (last axis of the (current, previous) matrices): plain 1-D arrays
+    for n in ast.walk(src):
+        if isinstance(n, ast.Assign) and isinstance(n.targets[0], ast.Name) and role.get(n.targets[0].id) in ("ddpm_max", "dfp_max", "dfp_min"):
+            reshaped = any((isinstance(x, ast.Attribute) and x.attr in ("reshape", "T", "transpose")) or
+                           (isinstance(x, ast.Call) and call_name(x).split(".")[-1] in ("expand_dims", "atleast_2d", "reshape", "transpose")) or
+                           (isinstance(x, ast.Attribute) and x.attr == "newaxis") or
+                           (isinstance(x, ast.Subscript) and any(isinstance(y, ast.Constant) and y.value is None for y in ast.walk(x.slice)))
+                           for x in ast.walk(n.value))
+            if reshaped:
+                rep.fail("R-C19-4", fi.file, n.lineno, fi.qualname, unparse(n)[:110],
+                         f"the {role[n.targets[0].id]} vector [sea, swell, ...] must broadcast along the PREVIOUS-partition axis (a plain 1-D array): "
+                         "reshaped to a column it is applied by the slot of the CURRENT partition, so the sea tolerance is granted to whatever "
+                         "lands in slot 0", anchor=f"threshold-axis:{role[n.targets[0].id]}")
+            else:
+                rep.ok("R-C19-4", f"{fi.file}:{n.lineno} match_consecutive_partitions", unparse(n)[:80], "1-D: indexed by the partition being continued")
     # sea row first in each threshold vector
     for name, first in (("ddpm_max", "ddpm_sea_max"), ("dfp_min", "dfp_sea_max")):
         for n in ast.walk(src):
